@@ -1,5 +1,5 @@
 (* Case runner and spec checker (T3) for C03. *)
-From WI Require Import Lib.Base Lib.Info Lib.Strings Model.Cert.
+From WI Require Import Lib.Base Lib.Info Lib.Strings Model.Cert Model.CertDer.
 Open Scope N_scope.
 
 (* ---------- decoding the harness's s-expressions ---------- *)
@@ -104,8 +104,41 @@ Definition lib_of_obs (a : arg) : result cert_fields :=
 Definition extras_of_arg (a : arg) : list (bytes * Z) :=
   map (fun x => (arg_bytes (arg_nth 0 x), arg_Z (arg_nth 1 x))) (arg_list a).
 
+(* the library's answers for the parts of a certificate that are not modelled octet by octet:
+   (names spkis sigs uris exts), each an association list keyed by the octets asked about *)
+Fixpoint assoc_bytes {A} (l : list (bytes * A)) (k : bytes) : option A :=
+  match l with
+  | [] => None
+  | (k', v) :: r => if bytes_eqb k k' then Some v else assoc_bytes r k
+  end.
+Definition oracles_of_arg (a : arg) : oracles :=
+  let names := map (fun x => (arg_bytes (arg_nth 0 x), arg_bytes (arg_nth 1 x))) (arg_list (arg_nth 0 a)) in
+  let spkis := map (fun x => (arg_bytes (arg_nth 0 x), spki_of_arg (arg_nth 1 x))) (arg_list (arg_nth 1 a)) in
+  let sigs := map (fun x => (arg_bytes (arg_nth 0 x), (arg_N (arg_nth 1 x), oid_of_arg (arg_nth 2 x)))) (arg_list (arg_nth 2 a)) in
+  let uris := map (fun x => (arg_bytes (arg_nth 0 x),
+                             match arg_list x with [_; s] => Some (arg_bytes s) | _ => None end)) (arg_list (arg_nth 3 a)) in
+  let exts := arg_list (arg_nth 4 a) in
+  {| o_name := assoc_bytes names;
+     o_spki := assoc_bytes spkis;
+     o_sig := assoc_bytes sigs;
+     o_uri := fun d => match assoc_bytes uris d with Some r => r | None => None end;
+     o_ext := fun id crit v =>
+       existsb (fun x => oid_eqb (oid_of_arg (arg_nth 0 x)) id && Bool.eqb (arg_bool (arg_nth 1 x)) crit &&
+                         bytes_eqb (arg_bytes (arg_nth 2 x)) v && arg_bool (arg_nth 3 x)) exts;
+     o_negative_serial := arg_bool (arg_nth 5 a) |}.
+
 Definition run_C03 (op : bytes) (input : arg) : arg :=
-  if bytes_eqb op (bs "ku") then
+  if bytes_eqb op (bs "der") then
+    match parse_certificate_der (oracles_of_arg (arg_nth 1 input)) (arg_bytes (arg_nth 0 input)) with
+    | Some f => AL [AZ 0; arg_of_fields f]
+    | None => AL [AZ 1]
+    end
+  else if bytes_eqb op (bs "derinspect") then
+    match describe_der (oracles_of_arg (arg_nth 1 input)) (arg_bytes (arg_nth 0 input)) with
+    | Some i => AL [AZ 0; arg_of_info i]
+    | None => AL [AZ 1]
+    end
+  else if bytes_eqb op (bs "ku") then
     AL (map AB (key_usages (arg_N (arg_nth 0 input))))
   else if bytes_eqb op (bs "eku") then
     AL (map AB (x509_ekus (map arg_N (arg_list (arg_nth 0 input))) (map oid_of_arg (arg_list (arg_nth 1 input)))))
@@ -455,6 +488,15 @@ Definition check_C03 (op : bytes) (input impl : arg) : arg :=
           | _ => first_error (check_certs encs (i_children i))
           end
     | _ => AS "inspection failed (error or panic)"
+    end
+  else if bytes_eqb op (bs "derinspect") then
+    (* the octets of one certificate through the tool; when the harness states what it encoded
+       (third component) the report is judged against that content *)
+    match arg_nth 2 input, impl with
+    | AL [e], AL [AZ 0%Z; ia] => first_error (check_cert (enc_of_arg e) (info_of_arg ia))
+    | AL [e], _ => AS "inspection failed (error or panic)"
+    | _, AL [AZ 2%Z] => AS "panic"
+    | _, _ => AL []
     end
   else
     match impl with
